@@ -38,7 +38,8 @@ RULE = (
     "values: strings built from an adversarial atom alphabet (quotes, backslash, %, :, ?, _, ;, --, /* */, $, brackets, newline/tab/CR, unicode incl. astral, "
     "bind-template look-alikes %(x)s / :x / __[POSTCOMPILE_x] / %s / $1 / :1, literal prefixes E' N'), ints incl. 32/64-bit extremes, finite floats incl. tiny/huge/-0.0, "
     "Decimals (<=15 digits, exponent +-12), dates / datetimes / times incl. extremes and microseconds, booleans, typed None; positions: SELECT list, WHERE =, IN list, "
-    "function argument, INSERT VALUES, UPDATE SET, LIMIT; modes literal_binds and literal_execute. live: sqlite3 through qmark + one drawn paramstyle. token: 18 "
+    "function argument, INSERT VALUES, UPDATE SET, LIMIT; modes literal_binds and literal_execute; value source: plain value, bindparam(callable_=), value given at execution, "
+    "statement.params(), required=True + parameters, one named bind used twice (non-unique, unique=True, two objects of one name). live: sqlite3 through qmark + one drawn paramstyle. token: 18 "
     "dialect/driver/escape-mode configurations per case. Non-trivial: the value contains a character from the escape-relevant set of the dialect "
     "(' \\\\ % : ? \" newline, non-ASCII, look-alike) or is a boundary number / date / None / bool; distinct = canonical JSON of the case"
 )
@@ -50,6 +51,8 @@ ASSUMPTIONS = [
     "driver %-grammars: python-style (psycopg2, psycopg, pymysql, mysqlclient: %% -> % everywhere), pg8000 (quote aware), pymssql (no %% un-doubling; its %(name)s scan "
     "inside literals cannot be escaped at all and is out of scope)",
     "non-ASCII text in a non-N'' MSSQL literal is a server code-page question, not a lexical one: not judged",
+    "a value-carrying and a callable-carrying bindparam of the same name and shape are never run on one engine (they share a compiled-cache entry and the callable form then executes with None: "
+    "findings/C05/cache_callable_vs_value.py, a C02-type finding); INSERT/UPDATE positions take deferred values only as callables (no statement.params() there)",
     "known findings excluded by construction and pinned: strings matching the compiler's own bind-template regexes on positional paramstyles "
     "(C05/positional-regex-rewrites-literal, C05/numeric-postcompile-regex-rewrites-literal), SQLite OFFSET without LIMIT (C05/sqlite-offset-no-limit) "
     "and binds inside RETURNING (C05/returning-ignores-literal-binds) under literal_binds; the empty tuple IN literal ('VALUES SELECT', fixed in 5b69129) is generated again",
@@ -166,40 +169,111 @@ POSITIONS = ["select", "where", "in", "tin", "tin_empty", "func", "values", "set
 FINDING_POSITIONS = ["offset", "returning"]
 
 
-def make_stmt(pos, spec, v, mode, tbl):
-    """mode: 'bound' | 'le' (literal_execute binds)"""
+DEFERRED = ("exec", "params", "required")  # the value is not stored in the bindparam: a stand-alone compile gets it through statement.params()
+SOURCES = ["plain", "callable", "exec", "params", "required", "twice", "twice_unique", "twice_sep"]
+DML_POSITIONS = ("values", "set", "returning")
+
+
+def effective_source(src, pos):
+    """how the value reaches the bind, made valid for the position (by construction)"""
+    if pos in DML_POSITIONS and src in ("exec", "params", "required"):
+        # statement.params() is not available on INSERT/UPDATE, so there is no documented way to hand a deferred value to literal_binds there
+        return "callable"
+    if pos in ("tin", "tin_empty") and src.startswith("twice"):
+        return "plain"  # re-using an expanding tuple bind is known finding C04/expanding-tuple-bind-reused
+    return src
+
+
+class Stmt:
+    """a statement plus the values that are not stored in it"""
+
+    def __init__(self, stmt, params, src):
+        self.stmt, self.params, self.src = stmt, params, src
+
+    def for_execute(self):
+        """(statement, parameters) for Connection.execute"""
+        if not self.params:
+            return self.stmt, None
+        if self.src == "params":
+            return self.stmt.params(self.params), None
+        return self.stmt, dict(self.params)
+
+    def for_compile(self):
+        """statement for a stand-alone compile (literal_binds / render_postcompile): deferred values are attached with .params()"""
+        return self.stmt.params(self.params) if self.params else self.stmt
+
+
+def make_stmt(pos, spec, v, mode, tbl, src="plain"):
+    """mode: 'bound' | 'le' (literal_execute binds); src: one of SOURCES.  Returns a Stmt"""
     from sqlalchemy import bindparam, func, insert, literal_column, select, update
 
     ty = sa_type(spec)
     le = mode == "le"
+    src = effective_source(src, pos)
+    params = {}
+    shared = {}
+    counter = [0]
 
-    def bp():
-        return bindparam(None, v, type_=ty, literal_execute=le)
+    def bp(value=v, expanding=False, typed=True):
+        kw = {"literal_execute": le}
+        if expanding:
+            kw["expanding"] = True
+        if typed:
+            kw["type_"] = ty
+        if src == "plain":
+            return bindparam(None, value, **kw)
+        name = f"p{counter[0]}"
+        counter[0] += 1
+        if src == "callable":
+            return bindparam(name, callable_=lambda value=value: value, **kw)
+        if src in ("exec", "params"):
+            params[name] = value
+            return bindparam(name, **kw)
+        if src == "required":
+            params[name] = value
+            return bindparam(name, required=True, **kw)
+        if src == "twice_sep":
+            return bindparam("ts", value, **kw)  # a new object each time, same non-unique name
+        if "b" not in shared:
+            shared["b"] = bindparam("tw", value, **kw) if src == "twice" else bindparam("tu", value, unique=True, **kw)
+        return shared["b"]
+
+    twice = src.startswith("twice")
+
+    def scalar():
+        """the value expression of scalar positions; the 'twice' sources use their bind two times"""
+        return func.coalesce(bp(), bp()) if twice else bp()
 
     if pos == "select":
-        return select(bp().label("v"), tbl.c.id).order_by(tbl.c.id)
-    if pos == "where":
-        return select(tbl.c.id).where(tbl.c.x == bp()).order_by(tbl.c.id)
-    if pos == "in":
-        return select(tbl.c.id).where(tbl.c.x.in_(bindparam(None, [v, v], type_=ty, expanding=True, literal_execute=le))).order_by(tbl.c.id)
-    if pos in ("tin", "tin_empty"):
+        q = select(scalar().label("v"), tbl.c.id).order_by(tbl.c.id)
+    elif pos == "where":
+        q = select(tbl.c.id).where(tbl.c.x == scalar()).order_by(tbl.c.id)
+    elif pos == "in":
+        q = select(tbl.c.id).where(tbl.c.x.in_(bp([v, v], expanding=True)))
+        if twice:
+            q = q.where(tbl.c.x.in_(bp([v, v], expanding=True)))
+        q = q.order_by(tbl.c.id)
+    elif pos in ("tin", "tin_empty"):
         from sqlalchemy import tuple_
 
         vals = [(v, 1), (v, 2)] if pos == "tin" else []
-        return select(tbl.c.id).where(tuple_(tbl.c.x, tbl.c.id).in_(bindparam(None, vals, expanding=True, literal_execute=le))).order_by(tbl.c.id)
-    if pos == "func":
-        return select(func.coalesce(bp(), bp()).label("v"), tbl.c.id).where(func.coalesce(bp(), tbl.c.x) == tbl.c.x).order_by(tbl.c.id)
-    if pos == "values":
-        return insert(tbl).values(id=bindparam(None, 50, literal_execute=le), x=bp())
-    if pos == "set":
-        return update(tbl).values(x=bp()).where(tbl.c.id == literal_column("2"))
-    if pos == "limit":
-        return select(tbl.c.id).order_by(tbl.c.id).limit(bindparam(None, v, type_=ty, literal_execute=le))
-    if pos == "offset":
-        return select(tbl.c.id).order_by(tbl.c.id).offset(bindparam(None, v, type_=ty, literal_execute=le))
-    if pos == "returning":
-        return insert(tbl).values(id=bindparam(None, 50, literal_execute=le), x=bp()).returning(tbl.c.id, bp().label("r"))
-    raise ValueError(pos)
+        q = select(tbl.c.id).where(tuple_(tbl.c.x, tbl.c.id).in_(bp(vals, expanding=True, typed=False))).order_by(tbl.c.id)
+    elif pos == "func":
+        q = select(func.coalesce(bp(), bp()).label("v"), tbl.c.id).where(func.coalesce(bp(), tbl.c.x) == tbl.c.x).order_by(tbl.c.id)
+    elif pos == "values":
+        q = insert(tbl).values(id=bindparam(None, 50, literal_execute=le), x=scalar())
+    elif pos == "set":
+        q = update(tbl).values(x=scalar()).where(tbl.c.id == literal_column("2"))
+    elif pos in ("limit", "offset"):
+        q = select(tbl.c.id).order_by(tbl.c.id)
+        q = q.limit(bp()) if pos == "limit" else q.offset(bp())
+        if twice:
+            q = q.where(tbl.c.id <= bp() + literal_column("1000"))
+    elif pos == "returning":
+        q = insert(tbl).values(id=bindparam(None, 50, literal_execute=le), x=bp()).returning(tbl.c.id, bp().label("r"))
+    else:
+        raise ValueError(pos)
+    return Stmt(q, params, src)
 
 
 def _table(ty):
@@ -300,8 +374,9 @@ def check_live(case, ctx):
     other = case.get("ps", "named")
     if other not in styles:
         styles.append(other)
-    classes = {kind, pos}
-    nontriv = interesting(v0, kind)
+    src = effective_source(case.get("src", "plain"), pos)
+    classes = {kind, pos, "value-source:" + src}
+    nontriv = interesting(v0, kind) or src != "plain"
     trig = triggers(v0)
     if trig:
         classes.add("lookalike")
@@ -340,20 +415,24 @@ def check_live(case, ctx):
                         raw_b = None
                         try:
                             if mode == "lb":
-                                comp = make_stmt(pos, spec, v, "bound", tbl).compile(eng, compile_kwargs={"literal_binds": True})
+                                src_lb = src
+                                if src in DEFERRED and not pinned:
+                                    ctx.exclude("value attached with statement.params() rendered under literal_binds (known finding C05/params-ignored-by-literal-binds)")
+                                    src_lb = "callable"
+                                comp = make_stmt(pos, spec, v, "bound", tbl, src_lb).for_compile().compile(eng, compile_kwargs={"literal_binds": True})
                                 if comp.positional and comp.positiontup:
                                     raise Violation((_known_live(ps, trig, "lb") if pinned else None) or f"C05/live/literal-binds-has-params/{ps}",
                                                     f"{where}: literal_binds compilation of value {v!r} still lists positional parameters {comp.positiontup!r}", observed=str(comp))
                                 r = conn.exec_driver_sql(str(comp))
                             else:
                                 del captured[:]
-                                stmt = make_stmt(pos, spec, v, mode, tbl)
+                                stmt, xparams = make_stmt(pos, spec, v, mode, tbl, src).for_execute()
                                 if mode == "bound" and ps == "qmark" and stmt.is_select:
                                     # raw image of the bound execution: the cursor-level statement re-run on a plain sqlite3 cursor
-                                    r0 = conn.execute(stmt)
+                                    r0 = conn.execute(stmt, xparams) if xparams else conn.execute(stmt)
                                     r0.all()
                                     raw_b = _raw(conn, captured[-1][0], captured[-1][1])
-                                r = conn.execute(stmt)
+                                r = conn.execute(stmt, xparams) if xparams else conn.execute(stmt)
                             rows = [tuple(x) for x in r.all()] if r.returns_rows else []
                         except (exc.StatementError, KeyError) as e:
                             if mode == "bound":
@@ -505,8 +584,13 @@ def check_token(case, ctx):
     only = case.get("only")
     spec = _limit_spec(spec, pos)
     v0, kind = value_of(spec)
-    classes = {kind, pos, mode}
-    nontriv = interesting(v0, kind)
+    src = effective_source(case.get("src", "plain"), pos)
+    if mode == "lb" and src in DEFERRED and not pinned:
+        # known finding C05/params-ignored-by-literal-binds: statement.params() values are not seen by literal_binds (renders NULL)
+        ctx.exclude("value attached with statement.params() rendered under literal_binds (known finding C05/params-ignored-by-literal-binds)")
+        src = "callable"
+    classes = {kind, pos, mode, "value-source:" + src}
+    nontriv = interesting(v0, kind) or src != "plain"
     trig = triggers(v0)
     if trig:
         classes.add("lookalike")
@@ -517,6 +601,8 @@ def check_token(case, ctx):
             ps = dialect.paramstyle
             v = v0
             known = _known_token(ps, trig, mode, name)
+            if mode == "lb" and src in DEFERRED:
+                known = known or "C05/params-ignored-by-literal-binds"
             if known and not pinned:
                 ctx.exclude(f"string matching the compiler's bind-template regex on a positional paramstyle (known finding {known})")
                 v = neutralise(v0, trig)
@@ -535,13 +621,13 @@ def check_token(case, ctx):
             ty = sa_type(spec)
             tbl = _table(ty)
             where = f"{name} ({ps}), {pos}, {mode}"
-            bound_c = make_stmt(pos, spec, v, "bound", tbl).compile(dialect=dialect, compile_kwargs={"render_postcompile": True})
+            bound_c = make_stmt(pos, spec, v, "bound", tbl, src).for_compile().compile(dialect=dialect, compile_kwargs={"render_postcompile": True})
             bound_sql = str(bound_c)
             try:
                 if mode == "lb":
-                    lit_c = make_stmt(pos, spec, v, "bound", tbl).compile(dialect=dialect, compile_kwargs={"literal_binds": True})
+                    lit_c = make_stmt(pos, spec, v, "bound", tbl, src).for_compile().compile(dialect=dialect, compile_kwargs={"literal_binds": True})
                 else:
-                    lit_c = make_stmt(pos, spec, v, "le", tbl).compile(dialect=dialect, compile_kwargs={"render_postcompile": True})
+                    lit_c = make_stmt(pos, spec, v, "le", tbl, src).for_compile().compile(dialect=dialect, compile_kwargs={"render_postcompile": True})
                 lit_sql = str(lit_c)
             except KeyError as e:
                 raise Violation(known or f"C05/token/compile-keyerror/{ps}", f"{where}: compiling value {v!r} raises KeyError {e} (bind-template regex applied to the rendered literal)")
@@ -652,8 +738,13 @@ _others = [_int_val, _float_val, _dec_val(), _date_val, _dt_val, _time_val, _boo
 # weights by index (one_of() de-duplicates a repeated strategy object): strings are half of all values
 _values = st.integers(0, 15).flatmap(lambda n: _str_val if n < 8 else _others[n - 8])
 
-_live_cases = st.fixed_dictionaries({"val": _values, "pos": st.sampled_from(POSITIONS), "ps": st.sampled_from(["named", "format", "pyformat", "numeric", "numeric_dollar", "qmark"])})
-_token_cases = st.fixed_dictionaries({"val": _values, "pos": st.sampled_from(POSITIONS + ["in", "where"] + FINDING_POSITIONS), "mode": st.sampled_from(["lb", "le"])})
+# how the value reaches the bind: plain and callable weighted up, every other source present
+_SRC_W = ["plain", "callable", "exec", "params", "required", "twice", "twice_unique", "twice_sep", "callable", "plain", "exec", "params", "required", "twice", "twice_unique", "twice_sep", "callable"]
+# Hypothesis favours small integers / first elements: scramble the index so that every source keeps its weight
+_sources = st.integers(0, 2**16).map(lambda n: _SRC_W[((n * 2654435761) >> 5) % len(_SRC_W)])
+_live_cases = st.fixed_dictionaries({"src": _sources, "pos": st.sampled_from(POSITIONS), "ps": st.sampled_from(["named", "format", "pyformat", "numeric", "numeric_dollar", "qmark"]),
+                                     "val": _values})
+_token_cases = st.fixed_dictionaries({"src": _sources, "pos": st.sampled_from(POSITIONS + ["in", "where"] + FINDING_POSITIONS), "mode": st.sampled_from(["lb", "le"]), "val": _values})
 
 
 def _enum_cases(tier):
@@ -662,6 +753,10 @@ def _enum_cases(tier):
     for mode in ("lb", "le"):
         for i in range(len(ATOMS)):
             yield {"val": {"t": "str", "a": [i], "u": False}, "pos": "where", "mode": mode}
+        for pos in POSITIONS + FINDING_POSITIONS:
+            for src in SOURCES[1:]:
+                yield {"val": {"t": "str", "a": [0, 22], "u": False}, "pos": pos, "mode": mode, "src": src}
+                yield {"val": {"t": "int", "v": 7}, "pos": pos, "mode": mode, "src": src}
         for i in crit:
             for j in crit:
                 yield {"val": {"t": "str", "a": [i, j], "u": bool((i + j) % 2)}, "pos": "select", "mode": mode}
